@@ -8,13 +8,15 @@ namespace coloquinte {
 DetailedPlacement DetailedPlacement::fromIspdCircuit(const Circuit &circuit) {
   // Represent fixed cells with -1 width so they are not considered
   int rowHeight = circuit.rowHeight();
-  std::vector<int> widths = circuit.cellWidth_;
+  std::vector<int> widths(circuit.nbCells());
   std::vector<Rectangle> obstacles;
   for (int c = 0; c < circuit.nbCells(); ++c) {
+    // Use the size with the current orientation, like legalization does
+    widths[c] = circuit.placedWidth(c);
     if (circuit.cellIsFixed_[c]) {
       // Fixed cells only matter as obstructions, which computeRows handles
       widths[c] = -1;
-    } else if (circuit.cellHeight_[c] != rowHeight) {
+    } else if (circuit.placedHeight(c) != rowHeight) {
       // Movable cells that are not handled here become obstacles
       widths[c] = -1;
       Rectangle pl = circuit.placement(c);
@@ -43,7 +45,7 @@ DetailedPlacement DetailedPlacement::fromIspdCircuit(const Circuit &circuit,
       continue;
     }
     Rectangle pl = circuit.placement(c);
-    if (circuit.cellHeight_[c] != rowHeight) {
+    if (circuit.placedHeight(c) != rowHeight) {
       obstacles.push_back(pl);
     } else if (region.contains(pl)) {
       cellIndex.push_back(c);
@@ -83,7 +85,7 @@ DetailedPlacement DetailedPlacement::fromIspdCircuit(const Circuit &circuit,
   std::vector<CellRowPolarity> cellPolarity(cellIndex.size());
   for (size_t i = 0; i < cellIndex.size(); ++i) {
     int c = cellIndex[i];
-    widths[i] = circuit.cellWidth()[c];
+    widths[i] = circuit.placedWidth(c);
     cellX[i] = circuit.cellX()[c];
     cellY[i] = circuit.cellY()[c];
     cellOrientation[i] = circuit.cellOrientation()[c];
